@@ -308,6 +308,12 @@ func genCancel(tier string, seed int64, only string) []*Case {
 				continue
 			}
 			add("op", name, "row", co.row, "term", term)
+			if strings.HasSuffix(name, "InnerOpen") && term == "take1" {
+				// the set-ups whose downstream ends DURING the subscription of an inner source: repeated (a run is judged on
+				// re-runs, see recheck; one case alone can slip through on a loaded machine)
+				add("op", name, "row", co.row, "term", term, "rep", "1")
+				add("op", name, "row", co.row, "term", term, "rep", "2")
+			}
 			if term != "take1" || name == "ToChannel" {
 				add("op", name, "row", co.row, "term", term, "src", "silent")
 			}
